@@ -85,16 +85,30 @@ class Lock:
 
 
 def sh(cmd, timeout=None, cwd=None, env=None, check=False, stdin=None):
+    """Runs a command (list, or string through the shell) in its own process group; on
+    timeout the WHOLE group is killed, so no grandchild (a harness run started through
+    `sh -c`) survives as a runaway process."""
+    import signal
     e = dict(os.environ)
     if env:
         e.update(env)
+    p = subprocess.Popen(cmd, shell=isinstance(cmd, str), cwd=cwd, env=e, stdout=subprocess.PIPE,
+                         stderr=subprocess.STDOUT, stdin=subprocess.PIPE if stdin is not None else subprocess.DEVNULL,
+                         start_new_session=True)
     try:
-        p = subprocess.run(cmd, shell=isinstance(cmd, str), cwd=cwd, env=e, timeout=timeout,
-                           stdout=subprocess.PIPE, stderr=subprocess.STDOUT, input=stdin)
-        out = p.stdout.decode("utf-8", "replace")
+        o, _ = p.communicate(input=stdin, timeout=timeout)
+        out = (o or b"").decode("utf-8", "replace")
         rc = p.returncode
-    except subprocess.TimeoutExpired as ex:
-        out = (ex.stdout or b"").decode("utf-8", "replace") + "\n[timeout]"
+    except subprocess.TimeoutExpired:
+        try:
+            os.killpg(p.pid, signal.SIGKILL)
+        except OSError:
+            pass
+        try:
+            o, _ = p.communicate(timeout=10)
+        except Exception:
+            o = b""
+        out = (o or b"").decode("utf-8", "replace") + "\n[timeout]"
         rc = 124
     if check and rc != 0:
         raise RuntimeError("command failed (%s): %s\n%s" % (rc, cmd, out[-4000:]))
